@@ -221,7 +221,7 @@ static void do_encode(int kind)
          if (h[0] != c->copy[0]) continue;
          if (!memcmp(h, c->copy, (size_t)c->nel * sizeof(float))) { lag = k; break; }
       }
-      /* the same up to one constant gain over the second half of the buffer (gain_fade with g2 < 1 in hybrid frames:
+      /* the same up to one constant gain <= 1 over the second half of the buffer (gain_fade, g2 < 1 in hybrid frames:
          the ramp covers at most the first Fs/400 samples) - mono only, stereo_fade mixes the channels */
       if (lag < 0 && !amb && CH == 1 && c->kind == 1 && c->nel >= 2 * (Fs / 400)) {
          long h0 = c->nel / 2;
@@ -229,7 +229,7 @@ static void do_encode(int kind)
             const float *h = Hb + Hn - k; double g; long jj;
             if (h[h0] == 0) continue;
             g = (double)c->copy[h0] / (double)h[h0];
-            if (!(g > 0.05 && g < 1.0)) continue;
+            if (!(g > 0.05 && g <= 1.0)) continue;
             for (jj = h0; jj < c->nel; jj++) { double d = (double)c->copy[jj] - g * (double)h[jj]; if (fabs(d) > 2e-6 * fabs((double)h[jj]) + 1e-9) break; }
             if (jj == c->nel) { lag = k; sc = 1; }
          }
